@@ -83,8 +83,10 @@ def evalSimple (s : MS) (m : SMotion) (count : Nat) (hasVerb : Bool) : MK :=
     match (if count = 1 then some s.eol else (s.selectLinesDown (count - 1)).map (fun b => b.2)) with
     | none => .null
     | some pos0 =>
+      -- (in visual mode `$` takes the terminator into the selection, except the buffer's last one: fix 5530bbc)
       (fun pos =>
-        if !hasVerb && s.isNlAt pos && pos > 0 && !s.isNlAt (pos - 1) then MK.on (pos - 1) else MK.on pos)
+        if !hasVerb && !(s.selecting && decide (pos + 1 < s.max)) && s.isNlAt pos && pos > 0 && !s.isNlAt (pos - 1)
+        then MK.on (pos - 1) else MK.on pos)
       (if pos0 > 0 && s.isNlAt (pos0 - 1) then pos0 - 1 else pos0)
   | .firstWord => match firstWordGo s (s.max + 1) s.sol with | some p => .on p | none => .null
   -- as plain motions `gg`/`G` go to the first non-blank of the first/last line; with an operator or a
@@ -97,11 +99,14 @@ def evalSimple (s : MS) (m : SMotion) (count : Nat) (hasVerb : Bool) : MK :=
       | none => .null
     else .lineOffset (-(cursorLine s.lb : Int))
   | .eob =>
-    if !hasVerb && !s.selecting then
-      match lineBounds s.gs (lastLineNumber s.gs) with
-      | some b => .on (skipBlanks s b.2 (b.2 - b.1) b.1)
-      | none => .null
-    else .lineOffset ((lastLineNumber s.gs - cursorLine s.lb : Nat) : Int)
+    -- `[N]G` goes to line N (fix 7751e1d; a count of one cannot be told from no count: the last line)
+    (fun target =>
+      if !hasVerb && !s.selecting then
+        match lineBounds s.gs target with
+        | some b => MK.on (skipBlanks s b.2 (b.2 - b.1) b.1)
+        | none => MK.null
+      else MK.lineOffset ((target : Int) - (cursorLine s.lb : Int)))
+    (if count > 1 then min (count - 1) (lastLineNumber s.gs) else lastLineNumber s.gs)
   | .toColumn => .on (min (s.sol + (count - 1)) s.max)
   | .wholeBuffer => .exclusive 0 s.max
 
@@ -334,24 +339,39 @@ def backGo (s : SK) : Nat → Nat → Option Nat
 /-- the last grapheme that is not a line terminator -/
 def lastChar (s : SK) : Option Nat := (List.range s.len).reverse.find? (fun i => !s.isK i 2)
 
+/-- scanning back from the last character over blanks and closers (`while q > 0 && … { q -= 1 }`) -/
+def backOverClosers (s : SK) : Nat → Nat
+  | 0 => 0
+  | q + 1 => if s.isK (q + 1) 1 || s.isK (q + 1) 4 then s.backOverClosers q else q + 1
+
+/-- the last sentence is closed by its punctuation: then the end of the buffer is a place `)` goes to like
+any other; otherwise running into it is only good for the last step -/
+def closed (s : SK) : Bool :=
+  match s.lastChar with
+  | none => false
+  | some last => s.isK (s.backOverClosers last) 3
+
 /-- `)` with a count, as a `MotionKind`: to the next sentence starts; when there is none, on to the last
-character of the buffer, which an operator takes. -/
-def fwdGo (s : SK) (cur : Nat) (hasVerb : Bool) : Nat → Nat → MK
-  | 0, pos => if pos == cur then .null else .on pos
-  | n + 1, pos =>
+character of the buffer, which an operator takes. `reached` = the end of the buffer was reached. -/
+def fwdGo (s : SK) (cur : Nat) (hasVerb : Bool) : Nat → Nat → Bool → MK
+  | 0, pos, reached =>
+    if reached then (if pos == cur then (if hasVerb then .inclusive pos pos else .null) else .onto pos)
+    else if pos == cur then .null else .on pos
+  | n + 1, pos, reached =>
     match s.nextStart pos with
-    | some st => s.fwdGo cur hasVerb n st
+    | some st => s.fwdGo cur hasVerb n st reached
     | none =>
       match s.lastChar with
       | none => .null
       | some last =>
-        if decide (last ≤ pos) && !(hasVerb && last == pos) then .null
-        else if hasVerb && last == cur then .inclusive last last
-        else .onto last
+        if reached || (decide (pos ≥ last) && !s.closed) then
+          (if decide (n > 0) || (pos == cur && !hasVerb) then .null else s.fwdGo cur hasVerb n last true)
+        else if !s.closed && decide (n > 0) then .null
+        else s.fwdGo cur hasVerb n last true
 
 /-- The `TextObj::Sentence` arm of `eval_motion`. -/
 def evalSentence (s : SK) (cur count : Nat) (fwd hasVerb : Bool) : MK :=
-  if fwd then s.fwdGo cur hasVerb count cur
+  if fwd then s.fwdGo cur hasVerb count cur false
   else match s.backGo count cur with
     | none => .null
     | some p => if p == cur then .null else .on p
